@@ -992,6 +992,9 @@ func (interp *Interpreter) cfg(root *node, sc *scope, importPath, pkgName string
 					break
 				}
 				constOp[n.action](n) // Compute a constant result now rather than during exec.
+				if err = check.constOverflow(n); err != nil {
+					break
+				}
 			}
 			switch {
 			case n.rval.IsValid():
@@ -2394,6 +2397,9 @@ func (interp *Interpreter) cfg(root *node, sc *scope, importPath, pkgName string
 					break
 				}
 				constOp[n.action](n)
+				if err = check.constOverflow(n); err != nil {
+					break
+				}
 			}
 			switch {
 			case n.rval.IsValid():
